@@ -15,7 +15,7 @@ func c06Round3(c *Ctx) {
 		c.Analysed[fname(fn)] = true
 		var start []Edge
 		var links []ssa.Instruction
-		for _, b := range fn.Blocks {
+		for _, b := range blocksIP(fn) {
 			for _, in := range b.Instrs {
 				switch x := in.(type) {
 				case *ssa.Lookup:
@@ -123,7 +123,7 @@ func c07Round3(c *Ctx, ix *Index) {
 				seq = p
 			}
 		}
-		for _, b := range fn.Blocks {
+		for _, b := range blocksIP(fn) {
 			for _, in := range b.Instrs {
 				if mu, ok := in.(*ssa.MapUpdate); ok && seq != nil && mu.Value == ssa.Value(seq) {
 					sets = append(sets, in)
